@@ -478,6 +478,15 @@ PROPS = {
         prop_file="Properties/C15.v",
         check_module="C15Check",
         theorems={
+            "C15_card_run_list_is_all_positions": [],
+            "C15_run_list_complete": [],
+            "C15_get_card_has_run": [],
+            "C15_compile_trace_classified": [],
+            "C15_plain_entry_names_owner": [],
+            "C15_epilogue_resolution": [],
+            "C15_error_trace_classified": [],
+            "C15_example_nested_table": [],
+            "C15_example_nested_abort_has_run": [],
             "C15_emit_index_sound": [],
             "C15_compile_error_loc": [],
             "C15_repeat_count_index_resolves": [],
